@@ -154,6 +154,18 @@ theorem depth_removed (kb : Bool) (ds : Dataset) (coords ns order ddims nsdims :
     simp only [List.mem_filter, List.all_eq_true, decide_eq_true_eq] at hv
     exact hv.2 p.1 hpv hpd
 
+/-- **The other dimensions are left as they were**: the result's `sizes` are exactly the input's
+entries for the dimensions some remaining variable uses (same size, same relative order). -/
+theorem sizes_kept (kb : Bool) (ds : Dataset) (coords ns order ddims nsdims : List String)
+    (h : Setting kb ds coords ns order ddims nsdims) (out : Dataset)
+    (hout : oceanFloorOrd kb ds coords ns order = some out) :
+    out.sizes = ds.sizes.filter (fun p => out.vars.any (fun v => p.1 ∈ v.dims)) := by
+  obtain ⟨S', _, hinv, hout'⟩ := run_eq h
+  rw [hout'] at hout
+  rw [← Option.some.inj hout]
+  have : S'.sizes = ds.sizes := hinv.sizes
+  simp only [Dataset.dropDims, this]
+
 /-- **All other variables are left as they were**: a plain variable without a depth dimension
 comes out of `ocean_floor` identical (dimensions, values, attributes, coordinate status). -/
 theorem other_vars_untouched (kb : Bool) (ds : Dataset) (coords ns order ddims nsdims : List String)
